@@ -936,9 +936,11 @@ class Ev:
         if isinstance(n.op, ast.USub):
             if isinstance(v, UnitV):
                 raise self.err("negated unit", n, mod)
+            if isinstance(v, ArrV):
+                return self.arr_binop(ast.Mult(), sp.Integer(-1), v, n, mod)
             return -as_sym(v)
         if isinstance(n.op, ast.UAdd):
-            return as_sym(v)
+            return v if isinstance(v, ArrV) else as_sym(v)
         if isinstance(n.op, ast.Not):
             b = self.truth(v, n, mod)
             return not b
@@ -1372,6 +1374,31 @@ class Ev:
         if isinstance(base, ArrV):
             items = idx.items if isinstance(idx, Tup) and idx.kind != "list" else [idx]
             items = [_as_index(i) for i in items]
+            if any(i is None for i in items) and base.batch and not base.batch_last and not any(i is Ellipsis for i in items):
+                # numpy.newaxis in front of / between the grid axes adds a grid axis (grid axes are implicit: every cell is an expression
+                # over the grid); behind them it adds a constant axis of length one
+                lead, seen_real, k_ = 0, 0, 0
+                while k_ < len(items) and seen_real < base.batch:
+                    if items[k_] is None:
+                        lead += 1
+                    else:
+                        seen_real += 1
+                    k_ += 1
+                if lead:
+                    rest = [i for j_, i in enumerate(items) if not (i is None and j_ < k_)]
+                    res = self.subscript(base, Tup(rest, "tuple"), n, mod)
+                    if isinstance(res, ArrV):
+                        res = ArrV(res.batch + lead, res.shape, res.fill, dict(res.cells), batch_last=res.batch_last)
+                    return res
+                grid, const = items[:k_], items[k_:]
+                inner = ArrV(0, base.shape, base.fill, dict(base.cells))
+                res = self.subscript(inner, Tup(const, "tuple"), n, mod)
+                if not isinstance(res, ArrV):
+                    res = ArrV(0, (), cells={(): res})
+                outer = ArrV(base.batch, res.shape, res.fill, dict(res.cells))
+                if any(not (isinstance(g, SliceV) and g.lo is None and g.hi is None and g.step is None) for g in grid):
+                    return self.subscript(outer, Tup(grid + [SliceV(None, None, None)] * len(outer.shape), "tuple"), n, mod)
+                return outer
             if any(i is None for i in items) and base.batch == 0 and not any(i is Ellipsis for i in items):
                 # numpy.newaxis: index without it, then insert the axes of length one where they were asked for
                 rest = [i for i in items if i is not None]
@@ -2436,11 +2463,13 @@ def _const_int(v):
 
 
 def lib_exp(ev, a, k, n, mod):
-    return sp.exp(as_sym(a[0]))
+    r = _cellwise(sp.exp, ev, a, n, mod)
+    return sp.exp(as_sym(a[0])) if r is None else r
 
 
 def lib_expm1(ev, a, k, n, mod):
-    return sp.exp(as_sym(a[0])) - 1
+    r = _cellwise(lambda x: sp.exp(x) - 1, ev, a, n, mod)
+    return sp.exp(as_sym(a[0])) - 1 if r is None else r
 
 
 def _cellwise(fn, ev, a, n, mod):
@@ -4607,12 +4636,24 @@ def lib_einsum(ev, a, k, n, mod):
     """numpy.einsum with an explicit output on small arrays (no grid axes): the sum over the contracted constant axes"""
     spec = a[0].replace(" ", "") if isinstance(a[0], str) else None
     ops = list(a[1:])
-    if spec is None or "->" not in spec or "." in spec or k or not all(isinstance(o, ArrV) and not o.batch for o in ops):
+    if spec is None or "->" not in spec or "." in spec or k or not all(isinstance(o, ArrV) and not o.batch_last for o in ops):
         raise ev.err("this numpy.einsum call is not modelled", n, mod)
     ins, out_ = spec.split("->")
     ins = ins.split(",")
-    if len(ins) != len(ops) or any(len(i) != len(o.shape) for i, o in zip(ins, ops)):
+    if len(ins) != len(ops) or any(len(i) != o.batch + len(o.shape) for i, o in zip(ins, ops)):
         raise RaisedV("ValueError", f"{mod.rel}:{getattr(n, 'lineno', 0)}" if mod else "")
+    # grid axes (the leading letters of an operand with grid axes) are carried through: every cell is an expression over the grid,
+    # the product is taken grid point by grid point; such a letter must survive into the output, in front of the constant axes
+    grid = []
+    for i, o in zip(ins, ops):
+        for ch in i[:o.batch]:
+            if ch not in grid:
+                grid.append(ch)
+    if any(ch in grid for i, o in zip(ins, ops) for ch in i[o.batch:]) or set(out_[:len(grid)]) != set(grid) or len(set(out_)) != len(out_):
+        raise ev.err("numpy.einsum that contracts or re-orders a grid axis is not modelled", n, mod)
+    out_batch = len(grid)
+    ins = [i[o.batch:] for i, o in zip(ins, ops)]
+    out_ = out_[out_batch:]
     size = {}
     for i, o in zip(ins, ops):
         for ch, d in zip(i, o.shape):
@@ -4621,7 +4662,7 @@ def lib_einsum(ev, a, k, n, mod):
     if any(ch not in size for ch in out_) or len(set(out_)) != len(out_):
         raise RaisedV("ValueError", f"{mod.rel}:{getattr(n, 'lineno', 0)}" if mod else "")
     summed = [ch for ch in size if ch not in out_]
-    out = ArrV(0, tuple(size[ch] for ch in out_))
+    out = ArrV(out_batch, tuple(size[ch] for ch in out_))
     for okey in itertools.product(*[range(size[ch]) for ch in out_]):
         env_ = dict(zip(out_, okey))
         tot = sp.Integer(0)
